@@ -34,7 +34,15 @@ func runC01(w *World) {
 	nkeys := 1 + w.knob("nkeys", 3)
 	nids := 2 + w.knob("nids", 3)
 	style := w.knob("style", 4)
+	// one run in four is not drawn but counted: the (seed/4 mod 21^3)-th sequence of three
+	// commands over a 21-command alphabet on one small keyspace, followed by every kind of read;
+	// the thorough tier goes through all 9261 sequences many times over, the quick tier through
+	// a fixed thousand of them
+	enum := w.knob("enum", 4) == 1
 	prog := w.program("p1", func(r *rand.Rand) []Cmd {
+		if enum {
+			return c01Enumerated(int((w.seed / 4) % 9261))
+		}
 		g := defaultGenCfg(1)
 		g.keys = g.keys[:nkeys]
 		g.freeIDs = []string{"a", "b", "c", "d"}[:nids]
@@ -53,6 +61,10 @@ func runC01(w *World) {
 	})
 	a := w.addActor(n, "127.0.0.1:50001", prog)
 	a.onReply = func(op *Op) { hc.onReply(op, a.end.c.name) }
+	if enum {
+		w.stat("c01.enumerated_sequences", 1)
+		size = len(prog)
+	}
 	w.RunChaos(size*40, a.done)
 	if !a.done() && !w.failed() {
 		w.Drain(20*time.Second, a.done)
@@ -80,4 +92,48 @@ func runC01(w *World) {
 			"log_entries": len(hc.lm.entries), "expired_by_sweeper": w.stats["probe.expiry_logged"]}
 	}
 	_ = strings.Join
+}
+
+var c01Alphabet = [][]string{
+	{"SET", "k", "a", "POINT", "1", "1"},
+	{"SET", "k", "a", "STRING", "s1"},
+	{"SET", "k", "b", "FIELD", "f", "1", "POINT", "2", "2"},
+	{"SET", "k", "a", "EX", "1000", "POINT", "3", "3"},
+	{"SET", "k", "a", "XX", "POINT", "4", "4"},
+	{"SET", "k", "a", "NX", "FIELD", "f", "7", "POINT", "5", "5"},
+	{"SET", "k", "e", "OBJECT", `{"type":"FeatureCollection","features":[]}`},
+	{"SET", "k2", "a", "BOUNDS", "1", "1", "2", "2"},
+	{"FSET", "k", "a", "f", "2"},
+	{"FSET", "k", "a", "f", "0", "g", "3", "g", "0"},
+	{"DEL", "k", "a"},
+	{"PDEL", "k", "*"},
+	{"DROP", "k"},
+	{"RENAME", "k", "k2"},
+	{"RENAME", "k", "k"},
+	{"RENAMENX", "k2", "k"},
+	{"EXPIRE", "k", "a", "1000"},
+	{"PERSIST", "k", "a"},
+	{"JSET", "k", "j", "b", "2"},
+	{"SET", "k", "j", "STRING", `{"a":1}`},
+	{"FLUSHDB"},
+}
+
+// c01Enumerated returns the idx-th sequence of three alphabet commands plus a fixed tail of reads.
+func c01Enumerated(idx int) []Cmd {
+	var p []Cmd
+	n := len(c01Alphabet)
+	for i := 0; i < 3; i++ {
+		p = append(p, Cmd{Args: append([]string(nil), c01Alphabet[idx%n]...)})
+		idx /= n
+	}
+	for _, key := range []string{"k", "k2"} {
+		p = append(p, Cmd{Args: []string{"TYPE", key}}, Cmd{Args: []string{"SCAN", key, "LIMIT", "100000"}})
+		for _, id := range []string{"a", "b", "e"} {
+			p = append(p, Cmd{Args: []string{"GET", key, id, "WITHFIELDS"}}, Cmd{Args: []string{"TTL", key, id}},
+				Cmd{Args: []string{"FGET", key, id, "f"}}, Cmd{Args: []string{"EXISTS", key, id}}, Cmd{Args: []string{"FEXISTS", key, id, "g"}})
+		}
+		p = append(p, Cmd{Args: []string{"JGET", key, "j", "b"}}, Cmd{Args: []string{"GET", key, "j"}})
+	}
+	p = append(p, Cmd{Args: []string{"KEYS", "*"}})
+	return p
 }
